@@ -799,7 +799,13 @@ pub fn run_property(ctx: &Ctx, def: PropertyDef) -> i32 {
             let e = known_total.entry(id.clone()).or_insert((0, m.clone()));
             e.0 += n;
         }
+        // one replay per distinct message, at most 3 per section (every shard that fails reports)
+        let mut seen_msgs: Vec<String> = vec![];
         for (msg, case) in &r.violations {
+            if seen_msgs.contains(msg) || seen_msgs.len() >= 3 {
+                continue;
+            }
+            seen_msgs.push(msg.clone());
             let p = write_replay(ctx, &r.name, msg, case);
             violations.push((r.name.clone(), msg.clone(), p));
         }
